@@ -1060,6 +1060,7 @@ def _c_hoist_counters(stmts):
 _c_helper_cache = {}
 ASSUMED = []
 REJECTIONS = []
+BUFFERED = []          # (line, statement, array, index text, conversion) of buffered many-to-one updates met by the Python desugaring
 
 
 def _c_helper_loader(tu):
@@ -1241,7 +1242,7 @@ class _PyPrep:
                 out.append(ast.If(test=self.expr(_py_neg(st.test)), body=self.block(rest, in_loop, top), orelse=[]))
                 return out
             if isinstance(st, ast.If) and top and not st.orelse and st.body and _bare_return(st.body[-1]) and rest:
-                out.append(ast.If(test=self.expr(st.test), body=self.block(st.body[:-1], in_loop, False), orelse=self.block(rest, in_loop, True)))
+                out.append(_swap_not(ast.If(test=self.expr(st.test), body=self.block(st.body[:-1], in_loop, False), orelse=self.block(rest, in_loop, True))))
                 return out
             if _bare_return(st) and top and not in_loop:
                 return out                       # the rest is dead code
@@ -1427,6 +1428,44 @@ class _PyPrep:
                 ast.While(test=ast.Compare(left=_name(i), ops=[ast.Lt()], comparators=[copy.deepcopy(length)]),
                           body=body_of(_name(i)) + [ast.AugAssign(target=ast.Name(id=i, ctx=ast.Store()), op=ast.Add(), value=ast.Constant(value=1))], orelse=[])]
 
+    def buffered_update(self, st, target, op, value):
+        """`a[<index array>] op= v` (also spelled `a[ix] = a[ix] op v`).  numpy gathers a[ix], applies the operation to the gathered
+        copy and scatters the result back: a position named k times by the index array is updated ONCE, not k times (unlike
+        np.add.at / np.bincount).  When the elements of the index array are pairwise different (positions selected by a mask,
+        np.where of a mask) this is the element loop `for i: a[ix[i]] op= v`.  When they are a many-to-one function of the data
+        (an integer conversion of a value computed from a datum: a bin number -- equal data give equal elements, and the
+        property quantifies over data with ties) the update is applied once per distinct element instead of once per datum:
+        recorded in BUFFERED (reported by engines() as R05.2 engine::py::tally-adds-once-per-datum); the statement is then read
+        as the element loop it stands in for, so that the other rules still see an engine.  Anything else: no verdict."""
+        iv = self.vexpr(target.slice)
+        if iv.mask:
+            if iv.guard is not None:
+                raise NotImplementedError("filtered mask as an index")
+            iv = _Vec(iv.length, lambda i: i, iv.elem)
+        if not isinstance(target.value, ast.Name) or self.vexpr(value) is not None:
+            raise NotImplementedError("array-indexed update `%s`" % norm(st)[:80])
+        q = _name("__q")
+        el = iv.elem(q)
+        distinct = isinstance(el, ast.Name) and el.id == "__q"
+        if not distinct:
+            conv = [c for c in ast.walk(el) if isinstance(c, ast.Call) and dotted_name(c.func) in ("np.int64", "numpy.int64", "int", "np.intp", "numpy.intp", "np.floor", "numpy.floor", "math.floor")
+                    and any(isinstance(x, ast.Subscript) and isinstance(x.value, ast.Name) and x.value.id in self.arrays for a in c.args for x in ast.walk(a))]
+            if not conv:
+                raise NotImplementedError("update through the index array `%s` whose elements are not known to be pairwise different" % norm(target.slice)[:60])
+            BUFFERED.append((getattr(st, "lineno", None), norm(st)[:120], target.value.id, norm(target.slice)[:60], norm(conv[0])[:80]))
+
+        def body(i):
+            inc = ast.AugAssign(target=ast.Subscript(value=_name(target.value.id), slice=self.expr(iv.elem(i)), ctx=ast.Store()), op=op, value=self.expr(value))
+            ast.copy_location(inc, st)
+            return [ast.If(test=self.expr(iv.guard(i)), body=[inc], orelse=[])] if iv.guard is not None else [inc]
+        return self.loop(iv.length, body)
+
+    def array_index(self, t):
+        """the element-wise view of the subscript of a store target, when that subscript is an array (else None)"""
+        if isinstance(t, ast.Subscript) and not isinstance(t.slice, (ast.Slice, ast.Tuple)):
+            return self.vexpr(t.slice)
+        return None
+
     def scatter_add(self, target, idx):
         """target[idx_i] += 1 for every (present) element of the index array"""
         v = self.vexpr(idx)
@@ -1473,11 +1512,20 @@ class _PyPrep:
                     return self.loop(vv.length, lambda i: [ast.Assign(targets=[ast.Subscript(value=_name(t.value.id), slice=ast.BinOp(left=copy.deepcopy(lo), op=ast.Add(), right=i), ctx=ast.Store())], value=self.expr(vv.elem(i)))])
                 hi = self.expr(t.slice.upper) if t.slice.upper is not None else ast.Attribute(value=_name(t.value.id), attr="size", ctx=ast.Load())
                 return [ast.Assign(targets=[ast.Subscript(value=t.value, slice=ast.Slice(lower=lo, upper=hi, step=None), ctx=ast.Store())], value=self.expr(v))]
+            if self.array_index(t) is not None:
+                # `a[ix] = a[ix] op v` with an index array: the gather / operate / scatter of `a[ix] op= v`
+                if isinstance(v, ast.BinOp) and norm(v.left) == norm(t):
+                    return self.buffered_update(st, t, v.op, v.right)
+                if isinstance(v, ast.BinOp) and isinstance(v.op, (ast.Add, ast.Mult)) and norm(v.right) == norm(t):
+                    return self.buffered_update(st, t, v.op, v.left)
+                raise NotImplementedError("store through the index array `%s`" % norm(t.slice)[:60])
             if isinstance(t, ast.Subscript):
                 return [ast.Assign(targets=[ast.Subscript(value=t.value, slice=self.expr(t.slice), ctx=ast.Store())], value=self.expr(v))]
             return [st]
         if isinstance(st, ast.AugAssign):
             v = st.value
+            if self.array_index(st.target) is not None:
+                return self.buffered_update(st, st.target, st.op, v)
             if isinstance(st.op, ast.Add) and isinstance(v, ast.Call) and call_name(v) == "bincount" and v.args and kwarg(v, "weights") is None and len(v.args) == 1:
                 tg = st.target
                 if isinstance(tg, ast.Subscript) and isinstance(tg.slice, ast.Slice) and tg.slice.lower is None and tg.slice.upper is None and tg.slice.step is None:
@@ -1488,7 +1536,7 @@ class _PyPrep:
             return [ast.AugAssign(target=st.target, op=st.op, value=self.expr(v))]
         if isinstance(st, ast.If):
             # (a `continue` in a nested arm skips more than the rest of that arm: it is left in place and refused by the lowering)
-            return [ast.If(test=self.expr(st.test), body=self.block(st.body, False, False), orelse=self.block(st.orelse, False, False))]
+            return [_swap_not(ast.If(test=self.expr(st.test), body=self.block(st.body, False, False), orelse=self.block(st.orelse, False, False)))]
         if isinstance(st, ast.While):
             if st.orelse:
                 raise NotImplementedError("while/else")
@@ -1548,6 +1596,13 @@ class _PyPrep:
             return self.block(body, False, True)
         finally:
             self.depth -= 1
+
+
+def _swap_not(st):
+    """`if not f: A else: B` (a negated flag, which the negation rewriting leaves alone) is `if f: B else: A`"""
+    while isinstance(st.test, ast.UnaryOp) and isinstance(st.test.op, ast.Not):
+        st = ast.If(test=st.test.operand, body=st.orelse, orelse=st.body)
+    return st
 
 
 def _bare_return(s):
@@ -2463,6 +2518,16 @@ class _Cover:
                 benv[v] = sp.Symbol("C_%s" % v, integer=True)
             else:
                 benv[v] = s.fresh(v)
+        # a variable set once, at the head of every iteration (before anything else happens), from the counter and values the
+        # loop does not change -- the loop variable of `for t in range(a, b)`, which is a + (hidden counter) -- holds that term
+        # in the statements after it
+        for x in st.b:
+            if not isinstance(x, sibling.Assign) or x.n in ctr or _count_assign(st.b, x.n) != 1:
+                break
+            try:
+                benv[x.n] = red.sx(x.e, benv)
+            except _TOL + (sp.SympifyError, ValueError):
+                break
         rng = None
         if len(ctr) == 1:
             (v, step), = ctr.items()
@@ -2475,6 +2540,16 @@ class _Cover:
                 lhs, rhs = c.lhs, c.rhs
                 rel = type(c)
                 old_rng, rng = rng, None
+                # `a + C < b` is `C < b - a` (integers; a, b free of the counter)
+                try:
+                    d = sp.expand(lhs - rhs)
+                    co = d.coeff(C, 1)
+                    if co in (1, -1) and lhs != C and rhs != C and C not in sp.expand(d - co * C).free_symbols:
+                        lhs, rhs = C, sp.expand(-(d - co * C) / co)
+                        if co == -1:
+                            rel = {sp.Lt: sp.Gt, sp.Le: sp.Ge, sp.Gt: sp.Lt, sp.Ge: sp.Le, sp.Ne: sp.Ne}[rel]
+                except Exception:
+                    pass
                 if rhs == C and C not in lhs.free_symbols:
                     lhs, rhs = rhs, lhs
                     rel = {sp.Lt: sp.Gt, sp.Le: sp.Ge, sp.Gt: sp.Lt, sp.Ge: sp.Le, sp.Ne: sp.Ne}[rel]
@@ -2608,6 +2683,7 @@ def _reused_bin(red, L, V, conds):
 def engines(chk, repo, py, cfn):
     """R05.1 (the engines perform the same guarded effects) and R05.2 (count / index pairing, on the Python engine's effects)"""
     try:
+        del BUFFERED[:]
         py_l = py_prepare(repo, py)
         del ASSUMED[:]
         cfn_l = c_prepare(cfn)
@@ -2615,8 +2691,16 @@ def engines(chk, repo, py, cfn):
             chk.assume(a)
     except NotImplementedError as e:
         raise AnalysisError("engine construct not supported by the desugaring: %s" % e)
-    # ---- R05.2 per-iteration rules (they do not need the four-construct form) ---------
     rel = py.where().rsplit(":", 1)[0]
+    # ---- R05.2 a vectorised tally adds one per datum, not one per distinct bin ---------
+    chk.ob("R05.2", "engine::py::tally-adds-once-per-datum", not BUFFERED, "%s:%s" % (rel, BUFFERED[0][0]) if BUFFERED and BUFFERED[0][0] else py.where(),
+           "%severy array-indexed accumulation of the Python engine (and of the helpers it calls) adds once for every element of its index array: np.add.at / np.bincount / an element loop, "
+           "or an in-place `a[ix] op= v` only when the elements of ix are pairwise different positions (a mask, np.where of a mask)"
+           % ("; ".join("`%s` (line %s) is a buffered fancy-index update: numpy gathers %s[ix], operates on the copy and scatters it back, so a position that the index array `%s` names k times is "
+                        "updated once, not k times; the elements of that index array are `%s`, an integer conversion of a value computed from a datum (a bin number), equal for equal data -- a bin "
+                        "holding k >= 2 data is credited 1 instead of k, the counts no longer sum to the number of counted data nor agree with the compiled engine (np.add.at(%s, ix, 1) or "
+                        "np.bincount accumulate per element)" % (b[1], b[0], b[2], b[3], b[4], b[2]) for b in BUFFERED[:2]) + " -- rule: " if BUFFERED else ""))
+    # ---- R05.2 per-iteration rules (they do not need the four-construct form) ---------
     pass_rules(chk, "py", _tol_py(py_l.body), {p: "P%d" % i for i, p in enumerate(_array_params(py_l))}, lambda ln: "%s:%s" % (rel, ln) if ln else py.where())
     cw0 = "esutil/stat/chist_pywrap.c"
     pass_rules(chk, "c", _tol_c((cfront.body_of(cfn_l) or {}).get("inner", []) or []), sibling.c_roles(cfn_l), lambda ln: "%s:%s" % (cw0, ln) if ln else "%s:%s" % (cw0, cfn.get("line", "?")))
